@@ -11,6 +11,11 @@
      op 5  supporting evidence: Kolmogorov-Smirnov distance D (computed by the harness against the
            distribution's own float64 CDF) of n draws of stats.Rand with a seeded math/rand source:
            7 5  nk { x l v }*  bl bh  n st D
+     op 6  built-in distributions without a quantile method and without an exact model here
+           (TDist, UDist, KDE), relational (oracle instantiation: F := the implementation's own CDF,
+           reported by the harness at the points the statement needs):
+           7 6 kind  bl bh cbl cbh  ny { y st x xm c0 cm }*
+           bl bh = Bounds(), cbl = CDF(bl), cbh = CDF(bh), x = InvCDF(y), xm = x - tol, c0 = CDF(x), cm = CDF(xm)
    All of x l v bl bh y obs ... are float64 bit patterns; st: 0 = returned, 2 = panicked.
    knot (x, l, v): break point, left limit, value (see Model/InvCDF.v). *)
 From MM Require Import Base.Num Model.Choose Model.Binom Model.Hyperg Model.InvCDF.
@@ -48,6 +53,7 @@ Definition T_PANIC := 16384.  (* y = NaN *)
 Definition T_EXACTLEVEL := 32768.  (* y equals a level of the cdf at a knot *)
 Definition T_BORDER := 65536.
 Definition T_KS := 131072.
+Definition T_REL := 262144.   (* relational check against the implementation's own CDF *)
 
 (* Dvoretzky-Kiefer-Wolfowitz (Massart): P (D_n > e) <= 2 exp (-2 n e^2).  False-alarm bound 1e-9:
    2 n D^2 <= ln (2e9) = 21.4164...  (the logarithm is a constant here, rounded up) *)
@@ -194,6 +200,47 @@ Fixpoint run_pairs (items : list (Z * Z)) (idx : Z) : option (Z * list Z) :=
   | (g, m) :: rest => if g =? m then run_pairs rest (idx + 1) else Some (idx, [9; g; m])
   end.
 
+(* ---------- relational check (C07_invcdf_generic_regular with F := the reported CDF values):
+   the result x satisfies CDF(x) >= y, and CDF(x - tol) < y with tol <= 1.001e-9 |x| + 2e-15 (the harness forms x - tol in float64), i.e. x is
+   within the property's tolerance of the smallest point with CDF >= y; y = 0 / 1 by the end-point rule ---------- *)
+Definition check_rel_y (slack : Q) (bl bh cbl cbh : xreal) (y : xreal) (st : Z) (x xm c0 cm : xreal) : Z * option (list Z) :=
+  match y with
+  | XNaN => (T_PANIC, if st =? 2 then None else Some [1])
+  | XInf _ => (T_NAN, if (st =? 0) && is_nan x then None else Some [2])
+  | XFin yq =>
+      if Qltb yq 0 || Qltb 1 yq then (T_NAN, if (st =? 0) && is_nan x then None else Some [2])
+      else if Qeq_bool yq 0 then
+        let r := if xeq (XFin 0) cbl then bl else XInf true in
+        (Z.lor T_SPECIAL (match r with XInf _ => T_INF | _ => 0 end), if (st =? 0) && xeq r x then None else Some (3 :: xdiag r))
+      else if Qeq_bool yq 1 then
+        let r := if xeq (XFin 1) cbh then bh else XInf false in
+        (Z.lor T_SPECIAL (match r with XInf _ => T_INF | _ => 0 end), if (st =? 0) && xeq r x then None else Some (3 :: xdiag r))
+      else
+        let tag := Z.lor T_REG T_REL in
+        match x, xm, c0, cm with
+        | XFin xq, XFin xmq, XFin c0q, XFin cmq =>
+            if negb (st =? 0) then (tag, Some [4])
+            else if negb (Qltb xmq xq && Qle_bool (xq - xmq) ((1001 # 1000) * e9 * Qabs xq + (2 # 1000000000000000))%Q) then (tag, Some [99])
+            else if negb (Qle_bool yq c0q) then (tag, Some (10 :: qdiag c0q))      (* CDF(x) < y *)
+            else if negb (Qltb cmq (yq + slack)) then (tag, Some (11 :: qdiag cmq))  (* CDF(x - tol) >= y: not the smallest *)
+            else (Z.lor tag (if Qle_bool 0 xq then T_RIGHT else T_LEFT), None)
+        | _, _, _, _ => (tag, Some [4])
+        end
+  end.
+Definition p_rel : parser (xreal * Z * (xreal * xreal * xreal * xreal)) :=
+  do y <- pX; do st <- pZ; do x <- pX; do xm <- pX; do c0 <- pX; do cm <- pX; pret (y, st, (x, xm, c0, cm)).
+Fixpoint run_rel_items (slack : Q) (bl bh cbl cbh : xreal) (items : list (xreal * Z * (xreal * xreal * xreal * xreal))) (idx tag : Z)
+  : Z * option (Z * list Z) :=
+  match items with
+  | [] => (tag, None)
+  | (y, st, (x, xm, c0, cm)) :: rest =>
+      let '(t, r) := check_rel_y slack bl bh cbl cbh y st x xm c0 cm in
+      match r with
+      | None => run_rel_items slack bl bh cbl cbh rest (idx + 1) (Z.lor tag t)
+      | Some dg => (Z.lor tag t, Some (idx, dg))
+      end
+  end.
+
 Definition valid_pw (pw : pwf) : bool := pw_wfb pw.
 
 Definition check_C07 (line : list Z) : list Z :=
@@ -257,6 +304,15 @@ Definition check_C07 (line : list Z) : list Z :=
                 | Some dg => match dg with [99] => verdict V_MALFORMED tag 4 dg | _ => verdict V_MISMATCH (Z.lor tag t) 4 dg end
                 end
           end
+      | None => verdict V_MALFORMED 0 (-1) []
+      end
+  | 7 :: 6 :: rest =>
+      match (do kind <- pZ; do bl <- pX; do bh <- pX; do cbl <- pX; do cbh <- pX; do items <- plist p_rel;
+             pend (kind, bl, bh, cbl, cbh, items)) rest with
+      | Some ((kind, bl, bh, cbl, cbh, items), _) =>
+          (* step functions (UDist) are evaluated exactly; a smooth float64 CDF is flat or noisy at the
+             1e-16 level where its derivative vanishes (an Epanechnikov kernel's edge, t near 0) *)
+          finish (run_rel_items (if kind =? 1 then 0 else eps_level) bl bh cbl cbh items 0 0)
       | None => verdict V_MALFORMED 0 (-1) []
       end
   | 7 :: 5 :: rest =>
